@@ -18,7 +18,11 @@ lengths that were added (independently of codelimit):
  * console widths: the text and Markdown summaries on consoles 22 .. 300 (thorough: every width up to 130,
                   and 1000) columns wide: the percentages SHOWN (the `N%` tokens above the verdict sentence) are
                   read from the console output and must satisfy the property against the true shares;
- * configuration: a share of the histories runs with Configuration.repository / exclude / verbose set."""
+ * configuration: a share of the histories runs with Configuration.repository / exclude / verbose set.
+
+Round 5: OBSERVATION POINTS - the summary is also read from what `print_report(console, report, diff_report)` prints
+(both formats, with and without a comparison report), from `report_command` on written reports and from the CLI entry
+function in a fresh interpreter; ORDER - the files of a code base carry several languages in interleaved order."""
 import io
 import os
 import sys
@@ -28,6 +32,7 @@ sys.path.insert(0, os.path.dirname(os.path.dirname(os.path.abspath(__file__))))
 sys.path.insert(0, os.path.join(os.path.dirname(os.path.dirname(os.path.dirname(os.path.abspath(__file__)))), "translator"))
 import common
 import h4_support as h4
+import h4_round5 as r5
 from props import C02
 
 ID = "C19"
@@ -79,7 +84,33 @@ _PCT = __import__("re").compile(r"(?<![\w.])-?\d+(?:\.\d+)?\s?%")
 _VERDICT = __import__("re").compile(r"(-?\d+)% of (?:the functions|lines of code) are")
 
 
-def render_report(rep, width=300, soft_wrap=False):
+def read_summary(raw, from_report=False):
+    """what a printed summary shows: -> (the `N%` tokens of the summary's figures, verdict code, number in the verdict).
+    The figures are the percentages between the `Summary` heading and the verdict sentence; when the summary has a
+    `Totals` row (one row per language above it) the figures of the whole code base are that row's."""
+    txt = " ".join(raw.split())
+    mv = _VERDICT.search(txt)
+    head = txt[:mv.start()] if mv else txt
+    k = head.rfind("Summary")
+    if k >= 0:
+        head = head[k:]
+    elif from_report:
+        head = ""
+    toks = [t.replace(" ", "") for t in _PCT.findall(head)]
+    if "Totals" in head and len(toks) > 3:
+        toks = toks[-3:]
+    if "unmaintainable, refactoring necessary" in txt:
+        code = 0
+    elif "hard to maintain, refactoring necessary" in txt:
+        code = 1
+    elif "no refactoring necessary" in txt:
+        code = 2
+    else:
+        code = -1
+    return toks, code, (int(mv.group(1)) if mv else -999)
+
+
+def render_report(rep, width=300, soft_wrap=False, diff=None, through_report=False):
     """everything the summary of a real Report object shows: the percentages function, the SummaryTable cells and
     styles, and the console output of both formats on a console of the given width.
     -> {"reply": line in the model driver's format, "shown": table cells, "console": {"text": [N% tokens above the
@@ -94,19 +125,19 @@ def render_report(rep, width=300, soft_wrap=False):
         buf = io.StringIO()
         con = Console(file=buf, width=width, emoji=False, highlight=False, soft_wrap=soft_wrap)
         mod.print_summary(con, rep)
-        txt = " ".join(buf.getvalue().split())
         raw[name] = buf.getvalue()
-        mv = _VERDICT.search(txt)
-        console_tokens[name] = [t.replace(" ", "") for t in _PCT.findall(txt[:mv.start()] if mv else txt)]
-        if "unmaintainable, refactoring necessary" in txt:
-            code = 0
-        elif "hard to maintain, refactoring necessary" in txt:
-            code = 1
-        elif "no refactoring necessary" in txt:
-            code = 2
-        else:
-            code = -1
-        outs.append((code, int(mv.group(1)) if mv else -999))
+        toks, code, num = read_summary(buf.getvalue())
+        console_tokens[name] = toks
+        outs.append((code, num))
+        if through_report or diff is not None:
+            # OBSERVATION POINT: the summary as `codelimit report [--diff previous]` prints it (print_report)
+            buf = io.StringIO()
+            con = Console(file=buf, width=width, emoji=False, highlight=False, soft_wrap=soft_wrap)
+            mod.print_report(con, rep, diff)
+            raw[name + "-report"] = buf.getvalue()
+            toks, code2, num2 = read_summary(buf.getvalue(), from_report=True)
+            console_tokens[name + "-report"] = toks
+            console_tokens[name + "-report-verdict"] = [code2, num2]
     st = SummaryTable(rep)
     cells = [c for col in st.columns for c in col._cells]
     styles = [str(c.style) for c in cells]
@@ -196,12 +227,33 @@ def oracle_observation(p, obs, width):
     ws = obs["reply"].split()
     h, u = int(ws[3]), int(ws[4])
     if width >= MIN_WIDTH:
-        for fmt in ("text", "markdown"):
+        for fmt in ("text", "markdown", "text-report", "markdown-report"):
+            if fmt not in obs["console"]:
+                continue
             bad += shown_triple_bad(p, obs["console"][fmt], "%s summary on a console %d columns wide" % (fmt, width))
             toks = obs["console"][fmt]
             if len(toks) == 3 and toks[1:] != ["%d%%" % h, "%d%%" % u]:
                 bad.append("%s summary shows %s but the verdict is derived from hard=%d unmaintainable=%d" % (fmt, toks, h, u))
+            v = obs["console"].get(fmt + "-verdict")
+            if v is not None:
+                bad += verdict_bad(toks, v[0], v[1], fmt)
     return bad
+
+
+def verdict_bad(toks, code, num, where):
+    """the verdict sentence against the three SHOWN percentages: refactoring necessary exactly when unmaintainable > 0 or
+    hard-to-maintain > 20; the number in the sentence is the deciding percentage"""
+    import re
+    if len(toks) != 3 or not all(re.fullmatch(r"-?\d+%", t) for t in toks):
+        return []
+    ev, h, u = (int(t[:-1]) for t in toks)
+    want = 0 if u > 0 else 1 if h > 20 else 2
+    if code != want:
+        return ["%s: verdict %d for the shown (easy/verbose=%d, hard=%d, unmaintainable=%d), required %d (0 = unmaintainable, 1 = hard to maintain, 2 = fine)"
+                % (where, code, ev, h, u, want)]
+    if num != (u, h, ev)[want]:
+        return ["%s: the verdict names %d%%, the summary shows %d%%" % (where, num, (u, h, ev)[want])]
+    return []
 
 
 def gen_length(rnd):
@@ -232,6 +284,7 @@ class History:
         from codelimit.common.report.Report import Report
         self.rnd = rnd
         self.lengths = []
+        self.files = []
         self.nfiles = 0
         self.log = []
         if via_reader:
@@ -249,7 +302,7 @@ class History:
             if start_lengths:
                 self.add(start_lengths)
 
-    def add(self, lengths):
+    def add(self, lengths, language="Python"):
         from codelimit.common.Location import Location
         from codelimit.common.Measurement import Measurement
         from codelimit.common.SourceFileEntry import SourceFileEntry
@@ -258,19 +311,44 @@ class History:
         for i, v in enumerate(lengths):
             ms.append(Measurement("f%d" % i, Location(line, 1), Location(line + v, 1), v))
             line += v + 1
-        self.rep.codebase.add_file(SourceFileEntry("d%d/f%d.py" % (self.nfiles % 7, self.nfiles), "00", "Python", sum(lengths), ms))
+        self.rep.codebase.add_file(SourceFileEntry("d%d/f%d.%s" % (self.nfiles % 7, self.nfiles, LANG_EXT.get(language, "x")), "00", language, sum(lengths), ms))
         self.lengths += list(lengths)
+        self.files.append([list(lengths), language])
         self.log.append(["add_file", list(lengths) if len(lengths) <= 12 else "%d functions" % len(lengths)])
 
-    def query(self, width=300):
+    def query(self, width=300, prev_files=None, through_report=False):
+        """prev_files: None | [[lengths, language], ...] = the code base of a comparison report (`--diff`)"""
         # STATE PROBE: whatever a query hands out may be modified by the caller
         qp = self.rep.quality_profile()
         if isinstance(qp, list):
             for i in range(len(qp)):
                 qp[i] = 10 ** 9 + i
-        obs = render_report(self.rep, width)
+        diff = build_files_report(prev_files) if prev_files is not None else None
+        obs = render_report(self.rep, width, diff=diff, through_report=through_report)
         self.log.append(["summary", width])
         return true_profile(self.lengths), obs
+
+
+LANG_EXT = {"Python": "py", "TypeScript": "ts", "Java": "java", "C": "c", "JavaScript": "js", "C++": "cpp", "Go": "go"}
+LANG_POOL = list(LANG_EXT)
+
+
+def build_files_report(files, root="/r"):
+    """a real Report over a real, aggregated Codebase with the given files ([[lengths, language], ...], in this order)"""
+    from codelimit.common.Codebase import Codebase
+    from codelimit.common.Location import Location
+    from codelimit.common.Measurement import Measurement
+    from codelimit.common.SourceFileEntry import SourceFileEntry
+    from codelimit.common.report.Report import Report
+    cb = Codebase(root)
+    for k, (lengths, language) in enumerate(files):
+        ms, line = [], 1
+        for i, v in enumerate(lengths):
+            ms.append(Measurement("f%d" % i, Location(line, 1), Location(line + v, 1), v))
+            line += v + 1
+        cb.add_file(SourceFileEntry("d%d/f%d.%s" % (k % 5, k, LANG_EXT.get(language, "x")), "00", language, sum(lengths), ms))
+    cb.aggregate()
+    return Report(cb)
 
 
 def replay_history(steps):
@@ -281,10 +359,61 @@ def replay_history(steps):
     bad = []
     for st in steps[1:] if first[0] in ("reader", "new") else steps:
         if st[0] == "add_file":
-            h.add(st[1])
+            h.add(st[1], st[2] if len(st) > 2 else "Python")
         elif st[0] == "summary":
-            p, obs = h.query(st[1])
+            p, obs = h.query(st[1], st[2] if len(st) > 2 else None, bool(st[3]) if len(st) > 3 else False)
             bad += oracle_observation(p, obs, st[1])
+    return bad
+
+
+def run_report_command(cur, prev, width, fresh=False):
+    """write the report(s) with ReportWriter into a scratch code base directory, run report_command(path, format, diff)
+    for both formats on a console `width` wide and judge the printed summary against the true shares of `cur`
+    -> list of reasons"""
+    import contextlib
+    import shutil
+    import tempfile
+    from pathlib import Path
+    from codelimit.commands.report import report_command
+    from codelimit.common.report.ReportFormat import ReportFormat
+    from codelimit.common.report.ReportWriter import ReportWriter
+    p = true_profile([v for ls, _l in cur for v in ls])
+    d = tempfile.mkdtemp(prefix="c19_")
+    old_cols = os.environ.get("COLUMNS")
+    os.environ["COLUMNS"] = str(width)
+    bad = []
+    try:
+        cache = Path(d) / ".codelimit_cache"
+        cache.mkdir()
+        (cache / "codelimit.json").write_text(ReportWriter(build_files_report(cur, d)).to_json())
+        diff_path = None
+        if prev is not None:
+            diff_path = Path(d) / "previous.json"
+            diff_path.write_text(ReportWriter(build_files_report(prev, d)).to_json())
+        for fmt in (ReportFormat.text, ReportFormat.markdown):
+            if fresh:
+                code, out, err = r5.run_entry({"command": "report", "path": d, "diff": str(diff_path) if diff_path else None, "format": fmt.value},
+                                              cwd=d, columns=width)
+                if code != 0:
+                    bad.append("`codelimit report` exits with %s: %s" % (code, (out + err)[-300:]))
+                    continue
+            else:
+                buf = io.StringIO()
+                with contextlib.redirect_stdout(buf):
+                    report_command(Path(d), fmt, diff_path)
+                out = buf.getvalue()
+            toks, code, num = read_summary(out, from_report=True)
+            where = "`codelimit report --format %s%s` on a console %d columns wide" % (fmt.value, " --diff previous.json" if prev is not None else "", width)
+            bad += shown_triple_bad(p, toks, where)
+            bad += verdict_bad(toks, code, num, where)
+            if code == -1:
+                bad.append("%s: no verdict sentence" % where)
+    finally:
+        if old_cols is None:
+            os.environ.pop("COLUMNS", None)
+        else:
+            os.environ["COLUMNS"] = old_cols
+        shutil.rmtree(d, ignore_errors=True)
     return bad
 
 
@@ -311,23 +440,46 @@ def run_object_streams(ctx, dis, fails, dist):
         via_reader = rnd.random() < 0.25
         start = gen_lengths(rnd, rnd.choice([0, 1, 3])) if (via_reader or rnd.random() < 0.5) else None
         cfg = h4.config_variants(["d1/f1.py", "d2/f2.py"], rnd)[k % 5][1] if k % 4 == 3 else {}
+        # NAMES / ORDER: 1..4 languages, a file's language drawn per file, so the files of a language are not adjacent
+        langs = rnd.sample(LANG_POOL, rnd.choice([1, 1, 2, 3, 4]))
         with h4.configured(**cfg):
             h = History(rnd, start_lengths=start, via_reader=via_reader)
             h.steps = [["reader", list(start or [])]] if via_reader else [["new"]] + ([["add_file", list(start)]] if start else [])
+
+            def ask(w):
+                # OBSERVATION POINT: a share of the queries also goes through print_report, with a comparison report
+                # (an earlier state of this code base, another code base, the same one, an empty one) or without
+                r = rnd.random()
+                prev, through = None, False
+                if r < 0.4:
+                    through = True
+                    k = rnd.random()
+                    if k < 0.4:
+                        prev = [list(f) for f in h.files[:rnd.randint(0, len(h.files))]]
+                    elif k < 0.6:
+                        prev = [[gen_lengths(rnd, rnd.choice([1, 3, 8])), rnd.choice(langs)] for _ in range(rnd.randint(1, 3))]
+                    elif k < 0.75:
+                        prev = [list(f) for f in h.files]
+                    elif k < 0.85:
+                        prev = []
+                p, obs = h.query(w, prev, through)
+                h.steps.append(["summary", w] + ([prev, through] if through else []))
+                note(h, p, obs, w, "history" + ("-configured" if cfg else "") + ("-diff" if prev is not None else "-report" if through else ""))
             for _ in range(rnd.randint(2, 7)):
                 if rnd.random() < 0.55:
-                    w = rnd.choice(W) if rnd.random() < 0.5 else 300
-                    p, obs = h.query(w)
-                    h.steps.append(["summary", w])
-                    note(h, p, obs, w, "history" + ("-configured" if cfg else ""))
+                    ask(rnd.choice(W) if rnd.random() < 0.5 else 300)
                 else:
                     ls = gen_lengths(rnd, rnd.choice([1, 1, 2, 3, 8]))
-                    h.add(ls)
-                    h.steps.append(["add_file", ls])
-            p, obs = h.query(300)
-            h.steps.append(["summary", 300])
-            note(h, p, obs, 300, "history" + ("-configured" if cfg else ""))
+                    lang = rnd.choice(langs)
+                    h.add(ls, lang)
+                    h.steps.append(["add_file", ls, lang])
+            ask(300)
         dist["histories"] = dist.get("histories", 0) + 1
+        nl = len({f[1] for f in h.files})
+        dist.setdefault("languages_per_history", {})[nl] = dist.setdefault("languages_per_history", {}).get(nl, 0) + 1
+        seq = [f[1] for f in h.files]
+        if any(seq[i] != seq[i + 1] and seq[i] in seq[i + 2:] for i in range(len(seq) - 2)):
+            dist["histories_with_interleaved_languages"] = dist.get("histories_with_interleaved_languages", 0) + 1
     # ---- size ladder: functions in the code base (spread over 1 .. 10^4 files), queried before, between and after
     rnd = ctx.rng("ladder")
     for n in ctx.pick([10 ** 2, 10 ** 3, 10 ** 4, 10 ** 5], [10 ** 2, 10 ** 3, 10 ** 4, 10 ** 5, 10 ** 6]):
@@ -363,11 +515,16 @@ def run_object_streams(ctx, dis, fails, dist):
         h = History(rnd)
         h.steps = [["new"]]
         if ls:
-            h.add(ls)
-            h.steps.append(["add_file", ls])
-        for w in W:
-            p, obs = h.query(w)
-            checks.append((p, obs, {"stream": "widths", "steps": h.steps + [["summary", w]], "width": w}))
+            # two or three files of two languages, the first language before AND after the second one
+            cut = [ls[:len(ls) // 3], ls[len(ls) // 3: 2 * len(ls) // 3], ls[2 * len(ls) // 3:]]
+            for part, lang in zip(cut, ("Python", "TypeScript", "Python")):
+                if part:
+                    h.add(part, lang)
+                    h.steps.append(["add_file", part, lang])
+        for wi, w in enumerate(W):
+            through = wi % 3 == 0
+            p, obs = h.query(w, None, through)
+            checks.append((p, obs, {"stream": "widths", "steps": h.steps + [["summary", w] + ([None, True] if through else [])], "width": w}))
         dist["width_bases"] = dist.get("width_bases", 0) + 1
         # observation only: consoles narrower than MIN_WIDTH
         for w in (8, 12, 16, 20, 21):
@@ -376,6 +533,23 @@ def run_object_streams(ctx, dis, fails, dist):
             d = dist.setdefault("narrow_consoles", {})
             d["%d: %s" % (w, "three percentages" if ok else "cells truncated")] = d.get("%d: %s" % (w, "three percentages" if ok else "cells truncated"), 0) + 1
     dist["console_widths"] = list(W) if len(W) < 20 else "%d widths %d..%d" % (len(W), W[0], W[-1])
+    # ---- OBSERVATION POINT: `codelimit report [--diff F] [--format X]` on written reports (report_command; a few in a fresh process)
+    rnd = ctx.rng("commands")
+    n_cmd = ctx.pick(60, 600)
+    n_fresh = ctx.pick(2, 20)
+    for k in range(n_cmd + n_fresh):
+        langs = rnd.sample(LANG_POOL, rnd.choice([1, 2, 2, 3, 4]))
+        cur = [[gen_lengths(rnd, rnd.choice([1, 2, 3, 8])), rnd.choice(langs)] for _ in range(rnd.randint(1, 6))]
+        r = rnd.random()
+        prev = None if r < 0.3 else [list(f) for f in cur[:rnd.randint(0, len(cur))]] if r < 0.6 else \
+            [[gen_lengths(rnd, rnd.choice([1, 3, 8])), rnd.choice(langs)] for _ in range(rnd.randint(0, 3))] if r < 0.9 else [list(f) for f in cur]
+        w = rnd.choice([60, 80, 100, 120, 200, 300])
+        fresh = k >= n_cmd
+        bad = run_report_command(cur, prev, w, fresh)
+        dist["commands" + ("-fresh-process" if fresh else "")] = dist.get("commands" + ("-fresh-process" if fresh else ""), 0) + 1
+        if bad:
+            fails.append({"input": {"stream": "commands", "cur": cur, "prev": prev, "width": w, "fresh": fresh}, "observed": bad[:4],
+                          "required": "the summary printed by `codelimit report` shows the current code base's shares (C19), with or without --diff"})
     # ---- compare
     model = common.run_driver_sharded(["qpp %d %d %d %d" % p for p, _, _ in checks])
     nontrivial = set()
@@ -462,6 +636,12 @@ def correspond(ctx):
                        "queries (a quarter starting from a report read back from its document, a quarter under Configuration.repository/exclude/verbose; "
                        "lists handed out by a query overwritten by the caller), a ladder of 10^2..10^5 (thorough 10^6) functions in 1..10^4 files queried "
                        "before / between / after, and the text + Markdown summaries read back from consoles of every width in `widths` (>= 22 columns)"
+                       "; round 5: the files of a history carry 1..4 languages drawn per file (interleaved order); 40 % of the history queries and every third "
+                       "width query also go through format_text / format_markdown.print_report - without a comparison report or with one (an earlier state of "
+                       "the same code base, another code base, an identical one, an empty one) - and the summary part of that output is judged like the plain "
+                       "summary, including the verdict sentence against the SHOWN figures (a `Totals` row, when there is one, holds the figures of the code base); "
+                       "commands: written reports of 1..6 files in 1..4 interleaved languages through report_command(path, text | markdown, diff | None) on "
+                       "consoles 60..300 wide, a few through the CLI entry function in a fresh interpreter"
                        "; non-trivial = distinct profiles with a positive hard-to-maintain or unmaintainable percentage",
         "samples": [{"profile": p, "model": m} for p, m in list(zip(ps, model))[-4:]] + [{"profile": (0, 0, 31, 62), "impl": real_qpp((0, 0, 31, 62))[0]}],
         "exhaustive": True, "distribution": dist,
@@ -505,6 +685,10 @@ def _steps_ok(inp):
 
 def replay(payload):
     inp = payload["input"]
+    if inp.get("stream") == "commands":
+        bad = run_report_command(inp["cur"], inp["prev"], inp["width"], bool(inp.get("fresh")))
+        print("report_command on current %s previous %s -> %s" % (inp["cur"], inp["prev"], bad or "ok"))
+        return not bad
     if "steps" in inp:
         if not _steps_ok(inp):
             print("summary of a large history only (%s)" % inp["steps"])
